@@ -34,7 +34,7 @@ let parse_event (op : string) : G.event option =
       | "fs" -> G.EFlvSub (n_of f.(1), n_of f.(2), deny)
       | "ts" -> G.ETsSub (n_of f.(1), n_of f.(2), deny)
       | "cp" -> G.ECustPub (n_of f.(1), n_of f.(2))
-      | "pp" -> G.EPsPub (n_of f.(1), n_of f.(2))
+      | "pp" -> G.EPsPub (n_of f.(1), n_of f.(2), not (len > 3 && f.(3) = "b"))   (* pp.S.N.b: a port that cannot be bound *)
       | "gone" -> G.EGone (n_of f.(1))
       | "kick" ->
         let name = f.(2) in
@@ -44,7 +44,9 @@ let parse_event (op : string) : G.event option =
            | [s; i] -> G.EKick (n_of f.(1), G.KAtt (n_of s, n_of i))
            | _ -> failwith "bad attempt name")
         else G.EKick (n_of f.(1), G.KConn (n_of body))
-      | "spull" -> G.EStartPull (n_of f.(1), z_of f.(2), z_of f.(3), not (len > 4 && f.(4) = "rtsp"))
+      (* spull.S.R.A[.rtsp | .bad | .badrtsp | .http]: bad = a malformed rtmp url, badrtsp = a malformed rtsp url, http = a scheme
+         lal has no pull session for (handed to the rtsp session); the attempt starts and fails by itself (run_case adds EPullFail) *)
+      | "spull" -> G.EStartPull (n_of f.(1), z_of f.(2), z_of f.(3), not (len > 4 && (f.(4) = "rtsp" || f.(4) = "badrtsp" || f.(4) = "http")))
       | "xpull" -> G.EStopPull (n_of f.(1))
       | "psucc" -> G.EPullSucc (n_of f.(1), n_of f.(2))
       | "pfail" -> G.EPullFail (n_of f.(1), n_of f.(2))
@@ -170,10 +172,13 @@ let parse_api (op : string) : (A.api_call * string) option =
           else Some (G.KConn (n_of body)) in
       Some (A.AKick (opt_n f.(1), t), "")
     | "hpp" ->
-      let suffix = match A.rtp_request (jfield f.(3)) (jfield f.(4)) (jfield f.(5)) with
+      let suffix = match A.rtp_request (if f.(3) = "b" then A.JInt (z_of_int 1) else jfield f.(3)) (jfield f.(4)) (jfield f.(5)) with
         | Some r -> "~" ^ string_of_int (int_of_z r.A.rr_timeout / 1000) ^ ":" ^ (if int_of_z r.A.rr_tcp <> 0 then "1" else "0")
         | None -> "" in
-      Some (A.AStartRtpPub (opt_n f.(1), n_of f.(2), jfield f.(3), jfield f.(4), jfield f.(5)), suffix)
+      (* port token b: an explicit port that the harness holds bound (udp, or tcp when is_tcp_flag asks for tcp): Listen fails *)
+      let busy = f.(3) = "b" in
+      let port = if busy then A.JInt (z_of_int 1) else jfield f.(3) in
+      Some (A.AStartRtpPub (opt_n f.(1), n_of f.(2), port, jfield f.(4), jfield f.(5), not busy), suffix)
     | _ -> None
   with Invalid_argument _ -> None
 
@@ -223,6 +228,12 @@ let run_case cfg ops =
           | Some (_, sfx) -> sfx
           | None -> "" in
         let ((ds1, dr), ns) = D.dstep fsdp fsh fx cf !ds de in
+        (* a relay pull whose url cannot even be parsed / dialled: the attempt that was started reports its failure at once *)
+        let self_failing = f.(0) = "spull" && Array.length f > 4 && (f.(4) = "bad" || f.(4) = "badrtsp" || f.(4) = "http") in
+        let (ds1, ns) = match dr with
+          | D.DR (G.RCode (_, _, Some (s, i))) when self_failing ->
+            let ((ds2, _), ns2) = D.dstep fsdp fsh fx cf ds1 (D.DE (S.CE (G.EPullFail (s, i)))) in (ds2, ns @ ns2)
+          | _ -> (ds1, ns) in
         ds := ds1;
         let st1 = ds1.D.ds_shell in
         let ev = if ns = [] then "-" else String.concat "+" (Stdlib.List.map show_notif ns) in
